@@ -158,6 +158,26 @@ inline void drive_c17()
     Z::fill(f);
     int bad = Z::config_mismatch(f);
     vh::ev(Z::depth);
+    {
+        // the positional helper must deliver its i-th argument to the i-th layer
+        vh::set_case("%s make_parameter_pack_for", Z::name());
+        typename Z::field_t h = Z::make_via_helper();
+        Z::fill(h);
+        int hb = Z::config_mismatch(h);
+        vh::ev(Z::depth);
+        if (hb >= 0) vh::viol("parameter-pack-helper", std::string(Z::type_string()) + " [" + Z::name() + "] layer " + std::to_string(hb) + " did not receive the argument at its position");
+        model::P m = Z::make_model();
+        compare_with_model<Z>(h, *m, rng, 60, "parameter-pack-helper:lookup", "helper-built");
+        // rebuild from the reported configurations + storage: equal to the original at every proposed coordinate
+        vh::set_case("%s rebuild", Z::name());
+        typename Z::field_t g = Z::rebuild(f);
+        int gb = Z::config_mismatch(g);
+        vh::ev(Z::depth);
+        if (gb >= 0) vh::viol("rebuild:configuration", std::string(Z::type_string()) + " layer " + std::to_string(gb));
+        unsigned hits = compare_with_model<Z>(g, *m, rng, 150, "rebuild:lookup", "rebuilt");
+        compare_with_model<Z>(f, *m, rng, 60, "original:lookup", "original");
+        vh::stat("rebuild_in_domain_lookups", hits);
+    }
     if (bad >= 0) vh::viol("configuration-readback", std::string(Z::type_string()) + " [" + Z::name() + "] layer " + std::to_string(bad) + " (counted from the outside) reports a configuration other than the one it was built with");
     vh::stat("stacks");
     vh::stat("layers", Z::depth);
